@@ -141,10 +141,16 @@ def make_state(kind, n, seed):
         if mask.all():
             mask[int(r.integers(0, N))] = False
         v[mask] = 0
+    elif kind == 'tiny':  # a few amplitudes ~1e-4..1e-5: outcomes with probability 1e-8..1e-10 that a real RNG can pick
+        v = r.normal(size=N) + 1j * r.normal(size=N)
+        mask = r.integers(0, 3, size=N) == 0
+        if mask.all():
+            mask[0] = False
+        v[mask] *= 10.0 ** r.uniform(-5, -4, size=int(mask.sum()))
     else:
         raise ValueError(kind)
     v = v.astype(np.complex128)
     return v / np.linalg.norm(v)
 
 
-STATE_KINDS = ['haar', 'real', 'product', 'product01', 'ghz', 'w', 'basis', 'sparse']
+STATE_KINDS = ['haar', 'real', 'product', 'product01', 'ghz', 'w', 'basis', 'sparse', 'tiny']
